@@ -1,6 +1,6 @@
 """C04 — Asr follows the shadow-length rule of the selected school (engine M, UF + lemmas)."""
 from ..common import *
-from ..obl import base, kernels, jd
+from ..obl import base, kernels, jd, wiring
 from . import kernelprop as kp
 
 LEVEL = "model_checking"
@@ -15,7 +15,7 @@ def run(rep):
                   "tolerance": "0.03 deg on the sine scale at altitude <= 46 deg"}
     rep.assumptions += kp.COMMON_ASSUMPTIONS + ["'Asr before Maghrib' is decided against the first-approximation sunset hour angle; "
                                                 "the iterated Maghrib correction (seconds) is outside this obligation"]
-    res = base.run_obligations(rep, [(kernels.asr, 60), (jd.jd_formula, (1600, 2399))])
+    res = base.run_obligations(rep, [(kernels.asr, 60), (jd.jd_formula, (1600, 2399)), (wiring.get_hours_wiring, None)])
     if any(x["cands"] for x in res if x["name"].startswith("JulianDay")):
         from . import c01
         c01.confirm_jd(rep, res)
